@@ -2,7 +2,10 @@
 
 package main
 
-import "github.com/smarthome-go/homescript/v3/homescript/runtime"
+import (
+	"github.com/smarthome-go/homescript/v3/homescript/runtime"
+	"sync"
+)
 
 // plain variant: the repository code is unmodified; VM runs use real goroutines.
 const controlled = false
@@ -17,4 +20,11 @@ func coresLockState(vm *runtime.VM) string {
 		return "R"
 	}
 	return "W"
+}
+
+func newHostLock() interface {
+	Lock()
+	Unlock()
+} {
+	return &sync.Mutex{}
 }
